@@ -135,7 +135,8 @@ def run(eng, rep) -> None:
     rep.rule("R13.3", "encode handlers compose through the shared bit cursor (no private byte-padded buffers joined by Insert)")
     rep.rule("R13.4", "enum width = canonical packed size")
     rep.rule("R13.5", "struct handlers iterate the reflected field vector in order")
-    rep.assume("sign handling, enum naming, JSON conversions, LoadBinarySchema's reconstruction of type chains; text-level reading of the C++ (the template is not parseable by clang without rendering the reflection header)")
+    rep.rule("R13.6", "decoded JSON has the same value category in both codecs: signed fields signed integers, unsigned fields unsigned, sequences always arrays (types from the clang AST of the static wrappers and of Buffer::GetWord)")
+    rep.assume("enum naming, JSON conversions other than the value category (R13.6), LoadBinarySchema's reconstruction of type chains; text-level reading of the C++ (the template is not parseable by clang without rendering the reflection header)")
     src = eng.read(*TPL.split("/"))
     # ---- R13.1 ---------------------------------------------------------------------
     tags = set()
@@ -177,6 +178,7 @@ def run(eng, rep) -> None:
     rep.floor("R13.2", "decode handlers", n, 10)
     dsig = fb.get("DecodeSigned", "")
     rep.check(bool(re.search(r"GetWord\(\s*size\s*,\s*true", dsig)), "R13.2", TPL, "DecodeSigned", "GetWord(size, true)", "sign extension requested", "signed fields are read without sign extension")
+    json_rules(eng, rep, fb, chains)
     # ---- R13.3 ---------------------------------------------------------------------
     for tag, h in sorted(chains["_Encode"].items()):
         body = fb.get(h)
@@ -210,3 +212,82 @@ def run(eng, rep) -> None:
         body = fb.get(h, "")
         ok = bool(re.search(r"for\s*\(\s*const\s+auto&\s+field\s*:\s*s\.fields\s*\)", body)) and not re.search(r"std::(sort|reverse)|rbegin", body)
         rep.check(ok, "R13.5", TPL, h, "for (const auto& field: s.fields)", "reflected order", "struct handler does not iterate the reflected field vector front to back")
+
+
+def json_rules(eng, rep, fb, chains) -> None:
+    """R13.6: value category of the JSON produced by decode, static wrapper vs run-time handler."""
+    from .cpp_codec import CppCodec
+    try:
+        cc = CppCodec(eng)
+    except AnalysisError as e:
+        rep.undecided("R13.6", TPL, "-", "clang AST of the static wrappers", str(e)[:160])
+        return
+    F2 = "plugins/fcp_cpp/fcp_cpp/decoders.h"
+    static = {}
+    for label, cls in cc.wrappers().items():
+        cat = cc.json_category(cls)
+        base = label.split("<")[0]
+        if cat is not None:
+            static.setdefault(base, set()).add(cat)
+    gw = cc.getword_return() or ""
+    gw_cat = "unsigned" if gw.startswith(("uint", "unsigned", "std::uint")) else ("signed" if gw else None)
+
+    def dyn_category(h):
+        body = fb.get(h)
+        if body is None:
+            return None, None
+        rets = re.findall(r"return\s+([^;]+);", body)
+        rets = [r for r in rets if "nullopt" not in r]
+        if not rets:
+            return None, None
+        r = rets[-1].strip()
+        if re.search(r"static_cast<\s*(std::)?int(64|32|16|8)_t\s*>|\((std::)?int64_t\)", r):
+            return "signed", r
+        if re.search(r"static_cast<\s*(std::)?uint(64|32|16|8)_t\s*>", r):
+            return "unsigned", r
+        if re.match(r"buffer\.GetWord\(", r):
+            return gw_cat, r
+        m = re.match(r"^(\w+)$", r)
+        if m:
+            d = re.search(r"(std::vector<json>|json|std::u?int\d+_t|u?int\d+_t|auto|float|double)\s+%s\b\s*(=\s*([^;]*))?;" % re.escape(m.group(1)), body)
+            if d:
+                ty = d.group(1)
+                if ty == "std::vector<json>":
+                    return "array", "%s %s" % (ty, r)
+                if ty in ("float", "double"):
+                    return "float", "%s %s" % (ty, r)
+                if re.match(r"(std::)?uint", ty):
+                    return "unsigned", "%s %s" % (ty, r)
+                if re.match(r"(std::)?int", ty):
+                    return "signed", "%s %s" % (ty, r)
+                if ty == "json":
+                    init = (d.group(3) or "").replace(" ", "")
+                    return ("array" if "json::array()" in init else "array-or-null"), "json %s" % r
+        return None, r
+
+    pairs = (("signed", "Signed"), ("unsigned", "Unsigned"), ("DynamicArray", "DynamicArray"), ("Array", "Array"))
+    for tag, wrapper in pairs:
+        h = chains["_Decode"].get(tag)
+        if h is None:
+            continue
+        dc, expr = dyn_category(h)
+        sc = static.get(wrapper)
+        site = "tag %s: run-time %s returns `%s`; static %s::DecodeJson" % (tag, h, (expr or "?")[:50], wrapper)
+        if dc is None or not sc or len(sc) != 1:
+            rep.undecided("R13.6", TPL, h, site, "value category not determined (run-time: %s, static: %s)" % (dc, sorted(sc) if sc else None))
+            continue
+        sc1 = next(iter(sc))
+        if wrapper == "Array" and {dc, sc1} <= {"array", "array-or-null"}:
+            rep.ok("R13.6", TPL, h, site, "fixed-size arrays have at least one element: both produce arrays")
+            continue
+        if dc == sc1:
+            rep.ok("R13.6", TPL, h, site, "both produce %s" % dc)
+        elif {dc, sc1} == {"signed", "unsigned"}:
+            rep.violation("R13.6", TPL if dc != wrapper.lower() else F2, h, "tag %s: run-time %s returns `%s` (%s)" % (tag, h, (expr or "?")[:50], dc),
+                          "the run-time decoder hands json a %s 64-bit integer (Buffer::GetWord returns %s) where the static codec produces a %s value: %s" % (
+                              dc, gw, sc1, "a negative field decodes as 2^64 - |v|" if dc == "unsigned" else "an unsigned field with the top bit set decodes as a negative number"))
+        elif {dc, sc1} == {"array", "array-or-null"}:
+            rep.violation("R13.6", F2 if sc1 == "array-or-null" else TPL, "%s::DecodeJson" % wrapper if sc1 == "array-or-null" else h, "empty sequence: %s produces null, %s produces []" % (("static", "run-time") if sc1 == "array-or-null" else ("run-time", "static")),
+                          "one codec builds the JSON by push_back into a default-constructed json (null when there are no elements), the other returns a vector (always an array): an empty dynamic array decodes to different values")
+        else:
+            rep.undecided("R13.6", TPL, h, site, "categories differ (%s / %s) in a way not decided" % (dc, sc1))
